@@ -304,4 +304,93 @@ example :
 theorem C11_reply_count (n : Nat) (h : n ≤ 7) : min (maxNumCookies 32 124) n = n := by
   rw [C11_maxFields]; omega
 
+/-! ### the cookie budget of a reply, for every unique-identifier length
+
+`C11_server_reply_ok` is stated for the identifier the request carries (`d.uid`, any length the
+listener admits). The three statements below isolate the arithmetic it rests on: the budget
+`maxNumCookies u c` must be computed from the length `u` of the identifier that is echoed. -/
+
+/-- bytes of a reply that echoes a `u`-byte identifier and carries `n` cookie fields of `c`
+    bytes (`c` a multiple of 4, as every issued cookie is) inside its authenticator: header,
+    identifier field, authenticator field (4 + 4 + 16-byte nonce + plaintext + 16-byte tag) -/
+def replyLen (u c n : Nat) : Nat := ntpPacketLen + (4 + pad4 u) + (4 + 4 + 16 + (n * (4 + c) + 16))
+
+/-- `replyLen` is the length of the reply in the model: for every identifier of at least 32 bytes
+    (aligned or not) and `n` cookies of one aligned length `c`, if `replyLen` is within
+    `MaxPacketLen` then `EncodePacket` of the response packet (plaintext = the `n` cookie fields)
+    succeeds, untruncated, with exactly that many bytes. -/
+theorem C11_reply_len (A : AEAD) (hs : A.Sized) (hdr uid key nonce : Bytes) (cs : List Bytes) (c : Nat)
+    (hh : hdr.length = ntpPacketLen) (hu : 32 ≤ uid.length) (hk : keyOk key = true) (hn : nonce.length = 16)
+    (hc : c % 4 = 0) (hcs : ∀ v ∈ cs, v.length = c) (fit : replyLen uid.length c cs.length ≤ maxPacketLen) :
+    ∃ b, encodePacket A hdr ⟨uid, [], [], key, fields extCookie cs⟩ nonce = .ok b ∧
+      b.length = replyLen uid.length c cs.length := by
+  have hfl : (fields extCookie cs).length = cs.length * (4 + c) := by
+    rw [fields_length, fieldsLen_uniform c cs hcs]
+  have hpad : pad4 (cs.length * (4 + c) + 16) = cs.length * (4 + c) + 16 := by
+    apply pad4_aligned
+    have : (cs.length * (4 + c)) % 4 = 0 := by
+      rw [Nat.mul_mod]; have : (4 + c) % 4 = 0 := by omega
+      rw [this]; simp
+    omega
+  have fit' : ntpPacketLen + (4 + pad4 uid.length) + paddedLen ([] : List Bytes) + paddedLen ([] : List Bytes) +
+      (24 + pad4 ((fields extCookie cs).length + 16)) ≤ maxPacketLen := by
+    rw [hfl, hpad]; unfold replyLen at fit; simp [paddedLen]; omega
+  obtain ⟨b, hb, hl⟩ := encode_len true A hs hdr ⟨uid, [], [], key, fields extCookie cs⟩ nonce hh hu hk hn fit'
+  refine ⟨b, hb, ?_⟩
+  rw [hl]
+  simp only [hfl, hpad, paddedLen, List.map_nil, List.sum_nil]
+  unfold replyLen; omega
+
+/-- **budget_fits.** For every identifier length `u` and cookie length `c`: any number of cookies
+    up to `maxNumCookies u c` (if that is at least one) gives a reply within `MaxPacketLen`. -/
+theorem C11_budget_fits (u c n : Nat) (hc : c % 4 = 0) (h1 : 1 ≤ n) (hn : n ≤ maxNumCookies u c) :
+    replyLen u c n ≤ maxPacketLen := by
+  unfold maxNumCookies at hn
+  have hp : pad4 c = c := by unfold pad4; omega
+  rw [hp] at hn
+  have hk : 0 < 4 + c := by omega
+  have hmul := (Nat.le_div_iff_mul_le hk).mp hn
+  have hpos : 0 < n * (4 + c) := Nat.mul_pos (by omega) hk
+  unfold replyLen
+  unfold maxPacketLen ntpPacketLen at *
+  omega
+
+/-- **budget_maximal** ("as many as fit"): one cookie more than `maxNumCookies u c` never fits,
+    whenever the identifier itself leaves room for the authenticator. -/
+theorem C11_budget_maximal (u c : Nat) (hc : c % 4 = 0) (hu : ntpPacketLen + (4 + pad4 u) + 40 ≤ maxPacketLen) :
+    maxPacketLen < replyLen u c (maxNumCookies u c + 1) := by
+  unfold maxNumCookies
+  have hp : pad4 c = c := by unfold pad4; omega
+  rw [hp]
+  have hk : 0 < 4 + c := by omega
+  generalize hB : maxPacketLen - ntpPacketLen - (4 + pad4 u) - 40 = B
+  have hlt : B < (B / (4 + c) + 1) * (4 + c) := by
+    have h1 := Nat.div_add_mod B (4 + c)
+    have h2 := Nat.mod_lt B hk
+    have h3 : (B / (4 + c) + 1) * (4 + c) = (4 + c) * (B / (4 + c)) + (4 + c) := by
+      rw [Nat.add_mul, Nat.one_mul, Nat.mul_comm]
+    omega
+  unfold replyLen
+  unfold maxPacketLen ntpPacketLen at *
+  omega
+
+/-- the budget as a function of the identifier length for the 124-byte cookies this project's
+    servers issue: 7 only up to 36 bytes, 6 up to 164, …, 1 up to 804, none beyond (such
+    requests are refused by `ProcessRequest`). -/
+theorem C11_budget_by_uid (u : Nat) :
+    (u ≤ 36 → maxNumCookies u 124 = 7) ∧ (36 < u → u ≤ 164 → maxNumCookies u 124 = 6) ∧
+    (164 < u → u ≤ 292 → maxNumCookies u 124 = 5) ∧ (292 < u → u ≤ 420 → maxNumCookies u 124 = 4) ∧
+    (420 < u → u ≤ 548 → maxNumCookies u 124 = 3) ∧ (548 < u → u ≤ 676 → maxNumCookies u 124 = 2) ∧
+    (676 < u → u ≤ 804 → maxNumCookies u 124 = 1) ∧ (804 < u → maxNumCookies u 124 = 0) := by
+  unfold maxNumCookies maxPacketLen ntpPacketLen pad4
+  omega
+
+/-- A budget computed for a 32-byte identifier is wrong for every longer one: next to a 37-byte
+    identifier the seven cookies that fit next to a 32-byte one make a reply of 1028 bytes. -/
+example : maxNumCookies 32 124 = 7 ∧ maxNumCookies 37 124 = 6 ∧ replyLen 37 124 7 = 1028 ∧
+    replyLen 37 124 6 = 900 ∧ replyLen 32 124 7 = 1020 := by decide
+
+/-- non-vacuity of `C11_budget_fits` / `C11_budget_maximal` at a long identifier -/
+example : 124 % 4 = 0 ∧ 1 ≤ 2 ∧ 2 ≤ maxNumCookies 600 124 ∧ ntpPacketLen + (4 + pad4 600) + 40 ≤ maxPacketLen := by decide
+
 end ScionTime.C11
